@@ -10,6 +10,7 @@
 #include "ref_unicode.h"
 #include "gen_text.h"
 #include "gen_scale.h"
+#include "ambient.h"
 #include <filesystem>
 #include <climits>
 #include <cfloat>
@@ -976,8 +977,518 @@ static void to_string_case(uint64_t i, Rng &r)
 
 } // namespace sc
 
+// ================================================================ history phases: soak, source placement
+// soak: ONE stream used as a builder for several hundred thousand consecutive content-changing calls inside one case, with the
+// shadow model compared after every call (size, storage class, the bytes just written) and in full - raw_buffer(), size(), one or
+// several to_string() calls - at check points whose distances, counted in content-changing calls, are exact multiples of 256 and
+// 65536 (and next to them) as well as random.  source placement: appends whose source lies right behind the stream object (or
+// right behind its heap buffer) in memory.
+namespace hist {
+
+enum { K_DEFAULT, K_ASSUME, K_SUBST, K_CHECK, K_LATIN1, N_KINDS };
+static const char *const KIND_CALL[] = {"to_string()", "to_string(true, assume_valid)", "to_string(true, substitute_invalid)", "to_string(true, check_validity)", "to_string(false)"};
+static const char *const KIND_KEY[] = {"", "to_string:assume_valid", "to_string:substitute_invalid", "to_string:check_validity", "to_string:latin1"};
+
+// what the conversions of the current content must give (computed once per check point, only what is asked for)
+struct Expect {
+    const S &m;
+    int valid = -1;
+    bool have_clean = false, have_latin = false;
+    S clean, latin;
+    explicit Expect(const S &model) : m(model) { }
+    bool ok() { if (valid < 0) valid = ref::utf8_ok(m) ? 1 : 0; return valid == 1; }
+    const S &cleaned() { if (!have_clean) { clean = ref::cleanup_utf8(m); have_clean = true; } return clean; }
+    const S &latin1() { if (!have_latin) { latin.reserve(m.size() * 2); for (unsigned char ch : m) ref::enc_utf8(latin, ch); have_latin = true; } return latin; }
+};
+
+// ONE to_string() call of one kind, compared with the model
+static void one_to_string(Pool &p, unsigned kind, Expect &e, const std::string &when)
+{
+    SS &ss = *p.s[0].p;
+    S out;
+    bool threw = false;
+    {
+        va::LibScope ls;
+        try {
+            ST::string t = kind == K_DEFAULT ? ss.to_string() : kind == K_LATIN1 ? ss.to_string(false)
+                         : ss.to_string(true, kind == K_ASSUME ? ST::assume_valid : kind == K_SUBST ? ST::substitute_invalid : ST::check_validity);
+            va::HarnessScope hs;
+            out.assign(t.c_str(), t.size());
+        } catch (const ST::unicode_error &) { threw = true; }
+    }
+    unsigned eff = kind;
+    if (kind == K_DEFAULT) { const ST::utf_validation_t dv = ST_DEFAULT_VALIDATION; eff = dv == ST::assume_valid ? K_ASSUME : dv == ST::substitute_invalid ? K_SUBST : K_CHECK; }
+    const S *want = nullptr;
+    switch (eff) {
+    case K_ASSUME: want = &e.m; break;
+    case K_SUBST: want = &e.cleaned(); break;
+    case K_CHECK: if (e.ok()) want = &e.m; break;           // (ill-formed content: the call must throw)
+    default: want = &e.latin1(); break;
+    }
+    vrt::evals();
+    vrt::count("soak.to_string_calls");
+    if (want ? (threw || out != *want) : !threw)
+        p.fail(KIND_KEY[eff], sfmt("%s %s: %s, expected %s; content %s", KIND_CALL[kind], when.c_str(),
+                                   threw ? "threw ST::unicode_error" : sfmt("returned %zu bytes (first difference from the expected text at byte %zu)", out.size(), want ? scale::first_diff(out, *want) : static_cast<size_t>(0)).c_str(),
+                                   want ? sfmt("%zu bytes", want->size()).c_str() : "ST::unicode_error", scale::brief(e.m).c_str()));
+}
+
+enum { G_MIXED, G_EXACT, G_APPENDS };
+struct Gap { uint32_t n; unsigned mode; };        // mode: any calls / content-changing calls only / content-growing calls only
+
+static void soak_case(uint64_t idx, Rng &r)
+{
+    const bool small = vrt::opt().scale < 1.0;            // (valgrind run)
+    const bool soup = idx % 4 == 3;                       // any bytes instead of text
+    Pool p;
+    Slot &x = p.s[0];
+    p.make(x);
+    SS &ss = *x.p;
+    S &m = x.model;
+    const S H = sfmt("<<soak-%08x>", static_cast<unsigned>(r.next() & 0xFFFFFFFFu));         // every non-empty content starts with these 16 bytes ...
+    const S TR = sfmt("<end-%08x/>>", static_cast<unsigned>(r.next() & 0xFFFFFFFFu));        // ... and at the check points it ends with these 16
+    S src(static_cast<size_t>(1) << 17, '\0');
+    if (soup) src = sc::rand_bytes(r, src.size(), true);
+    else for (char &c : src) c = static_cast<char>(0x20 + r.below(0x5F));
+    const size_t LIMIT = 30000 + r.below(50000);          // the builder is emptied when it gets bigger than this (sizes beyond 65536 in some cases)
+    static const char *const MB[] = {"\xC3\xA9", "\xDF\xBF", "\xE2\x82\xAC", "\xEF\xBF\xBD", "\xF0\x9F\x98\x80", "\xF4\x8F\xBF\xBF"};
+    uint64_t mutations = 0, calls = 0, moved = 0;
+    const char *last_buf = ss.raw_buffer();
+
+    auto after = [&](size_t added, const char *what) {
+        ++mutations;
+        ++calls;
+        sc::check_tail(p, 0, added, what);
+        if (ss.raw_buffer() != last_buf) { last_buf = ss.raw_buffer(); ++moved; p.check_all(sfmt("mutation %llu (%s): buffer moved", static_cast<unsigned long long>(mutations), what)); }
+    };
+    auto do_append = [&](const char *ptr, size_t n, unsigned form) {
+        const char *what;
+        switch (form) {
+        case 1: { va::LibScope ls; ss << std::string_view(ptr, n); what = "<<string_view"; break; }
+        case 2: { vrt::Exact<char> e(ptr, n); { va::LibScope ls; ss.append(e.data(), n); } what = "append(ptr,n) [exact block]"; break; }
+        case 3: { ST::string s = vrt::mk(S(ptr, n)); { va::LibScope ls; ss << s; } what = "<<ST::string"; break; }
+        case 4: { S s(ptr, n); { va::LibScope ls; ss << s; } what = "<<std::string"; break; }
+        default: { va::LibScope ls; ss.append(ptr, n); what = "append(ptr,n)"; break; }
+        }
+        m.append(ptr, n);
+        after(n, what);
+    };
+    auto do_char = [&]() {
+        const char c = soup ? static_cast<char>(r.below(256)) : static_cast<char>(0x20 + r.below(0x5F));
+        { va::LibScope ls; if (r.chance(1, 4)) ss << c; else ss.append_char(c); }
+        m += c;
+        after(1, "append_char");
+    };
+    auto do_trunc = [&](size_t n) {            // n < size
+        { va::LibScope ls; ss.truncate(n); }
+        m.resize(n);
+        after(0, "truncate(n)");
+    };
+    auto boundary = [&](size_t n) {            // walk back to the start of a character (not below the header)
+        if (!soup && r.chance(7, 8)) while (n > 16 && (static_cast<unsigned char>(m[n]) & 0xC0) == 0x80) --n;
+        return n;
+    };
+    // wide text in caller-side storage that stays where it is and is rewritten in place between the calls: 40 units, the first
+    // and the last 16 never change
+    std::u16string w16;
+    std::u32string w32;
+    std::wstring ww;
+    for (unsigned k = 0; k < 40; ++k) { const char c = static_cast<char>('a' + r.below(26)); w16 += static_cast<char16_t>(c); w32 += static_cast<char32_t>(c); ww += static_cast<wchar_t>(c); }
+    vrt::Exact<char16_t> a16(w16.data(), 40, true);
+    vrt::Exact<char32_t> a32(w32.data(), 40, true);
+    vrt::Exact<wchar_t> aw(ww.data(), 40, true);
+    auto wide_in_place = [&]() {
+        static const char32_t wc[] = {0xE9, 0x20AC, 0xFFFD, 'w', 0x7FF, 'Z', '0', 0x100};          // (one unit each in every encoding)
+        const unsigned fam = static_cast<unsigned>(r.below(3)), how = static_cast<unsigned>(r.below(3));
+        S u8;
+        auto rewrite = [&](auto &arr, auto &str) {
+            typedef typename std::remove_reference<decltype(str)>::type::value_type T;
+            for (unsigned k = 16; k < 24; ++k) { const T c = static_cast<T>(r.pick(wc)); arr.p[k] = c; str[k] = c; }
+            for (T c : str) ref::enc_utf8(u8, static_cast<unsigned long>(c));
+            va::LibScope ls;
+            switch (how) { case 0: ss << arr.data(); break; case 1: ss << std::basic_string_view<T>(arr.data(), 40); break; default: ss << str; break; }
+        };
+        if (fam == 0) rewrite(a16, w16); else if (fam == 1) rewrite(a32, w32); else rewrite(aw, ww);
+        m += u8;
+        after(u8.size(), "<<wide text rewritten in place");
+        vrt::count("soak.wide_text_rewritten_in_place_at_one_address");
+    };
+    auto interesting_append = [&]() {
+        if (r.chance(1, 2)) wide_in_place();
+        else { const char *mb = r.pick(MB); do_append(mb, strlen(mb), static_cast<unsigned>(r.below(5))); }
+    };
+    // content-changing calls, at most `budget` of them (nearly always one; G_MIXED: sometimes a call that changes nothing, or one that
+    // is several calls inside); returns how many
+    auto mutate = [&](unsigned mode, uint32_t budget) -> uint32_t {
+        const size_t c = m.size();
+        const bool mixed = mode == G_MIXED, grow_only = mode == G_APPENDS;
+        if (budget >= 70 && c > 0 && r.chance(1, 400)) {
+            // a run of 64..300 equal calls, then directly a different one
+            const uint32_t run = 64 + static_cast<uint32_t>(r.below(std::min<uint32_t>(237, budget - 65)));
+            const char ch = static_cast<char>('a' + r.below(26));
+            const bool op = r.chance(1, 2);
+            for (uint32_t k = 0; k < run; ++k) { { va::LibScope ls; if (op) ss << ch; else ss.append_char(ch); } m += ch; after(1, "append_char [run of equal calls]"); }
+            if (grow_only || c + run <= 17 || r.chance(2, 3)) interesting_append();
+            else do_trunc(boundary(16 + r.below(c + run - 16)));
+            vrt::count("soak.runs_of_64_or_more_equal_calls_then_a_different_one");
+            return run + 1;
+        }
+        if (mixed && r.chance(1, 6)) {
+            ++calls;
+            switch (r.below(6)) {
+            case 0: { const S want = sc::insert_number(ss, r); m += want; ++mutations; sc::check_tail(p, 0, want.size(), "<<number"); break; }
+            case 1: { va::LibScope ls; ss.truncate(c + r.below(3)); break; }
+            case 2: { va::LibScope ls; ss.erase(0); break; }
+            case 3: { va::LibScope ls; switch (r.below(5)) { case 0: ss.append(src.data(), 0); break; case 1: ss.append_char('x', 0); break; case 2: ss.append(nullptr); break; case 3: ss << static_cast<const char *>(nullptr); break; default: ss << std::string_view(); break; } break; }
+            case 4: { va::LibScope ls; SS tmp(std::move(ss)); ss = std::move(tmp); vrt::count("soak.moved_out_and_back"); break; }
+            default: { va::LibScope ls; ss << ""; break; }
+            }
+            sc::check_tail(p, 0, 0, "a call that leaves the content alone");
+            if (ss.raw_buffer() != last_buf) { last_buf = ss.raw_buffer(); p.check_all("buffer moved"); }
+            return 1;
+        }
+        if (c == 0) { do_append(H.data(), 16, 0); return 1; }
+        if (c > LIMIT && !grow_only) {
+            if (r.chance(1, 3)) { { va::LibScope ls; ss.truncate(); } m.clear(); after(0, "truncate()"); vrt::count("soak.emptied"); }
+            else do_trunc(boundary(16 + r.below(c - 16)));
+            return 1;
+        }
+        const unsigned u = static_cast<unsigned>(r.below(1000));
+        if (u < 700 || (grow_only && u >= 872)) do_char();
+        else if (u < 800) {
+            if (!soup && r.chance(1, 2)) { const char *mb = r.pick(MB); do_append(mb, strlen(mb), static_cast<unsigned>(r.below(2))); }
+            else do_append(src.data() + r.below(src.size() - 8), 1 + r.below(8), static_cast<unsigned>(r.below(2)));
+        }
+        else if (u < 840) { const char ch = static_cast<char>('A' + r.below(26)); const size_t n = 2 + r.below(5); { va::LibScope ls; ss.append_char(ch, n); } m.append(n, ch); after(n, "append_char(c,n)"); }
+        else if (u < 862) do_append(src.data() + r.below(src.size() - 64), 1 + r.below(40), 1 + static_cast<unsigned>(r.below(4)));
+        else if (u < 866) wide_in_place();
+        else if (u < 872) {
+            // wide text: one conversion, one append
+            std::u32string cps;
+            for (size_t k = 1 + r.below(4); k-- > 0;) { static const char32_t wc[] = {0xE9, 0x20AC, 0x1F600, 'w', 0x7FF, 0x10FFFF}; cps += r.pick(wc); }
+            const S u8 = sc::enc8(cps);
+            switch (r.below(3)) {
+            case 0: { const std::u16string t = sc::enc16(cps); vrt::Exact<char16_t> e(t.data(), t.size(), true); va::LibScope ls; ss << e.data(); break; }
+            case 1: { va::LibScope ls; ss << cps; break; }
+            default: { const std::wstring w(cps.begin(), cps.end()); va::LibScope ls; ss << std::wstring_view(w); break; }
+            }
+            m += u8;
+            after(u8.size(), "<<wide text");
+        }
+        else if (u < 935 && c > 16) do_trunc(boundary(c - 1 - r.below(std::min<size_t>(c - 16, 8))));
+        else if (u < 965 && c > 16) { const size_t n = boundary(c - 1 - r.below(std::min<size_t>(c - 16, 8))); { va::LibScope ls; ss.erase(c - n); } m.resize(n); after(0, "erase(k)"); }
+        else if (u < 966 && c > 17) do_trunc(boundary(16 + r.below(c - 16)));
+        else if (u < 967 && r.chance(1, 12)) { { va::LibScope ls; ss.truncate(); } m.clear(); after(0, "truncate()"); vrt::count("soak.emptied"); }
+        else do_char();
+        return 1;
+    };
+
+    // the distances between consecutive check points
+    std::vector<Gap> gaps;
+    auto add = [&](uint32_t n, unsigned times, unsigned mode) { while (times-- > 0) gaps.push_back(Gap{n, mode}); };
+    if (small) { add(65536, 1, G_EXACT); add(256, 3, G_EXACT); add(256, 1, G_APPENDS); add(512, 1, G_EXACT); add(255, 1, G_EXACT); add(257, 1, G_EXACT); }
+    else {
+        add(65536, 4, G_EXACT); add(65535, 1, G_EXACT); add(65537, 1, G_EXACT); add(131072, 1, G_EXACT); add(256, 8, G_EXACT); add(512, 2, G_EXACT); add(768, 1, G_EXACT); add(1024, 1, G_EXACT); add(4096, 1, G_EXACT);
+        add(255, 1, G_EXACT); add(257, 1, G_EXACT); add(65536, 1, G_APPENDS); add(256, 2, G_APPENDS); add(512, 1, G_APPENDS);
+        if (vrt::thorough()) add(196608, 1, G_EXACT);
+    }
+    for (unsigned k = small ? 10 : 30; k-- > 0;) add(1 + static_cast<uint32_t>(r.below(60)), 1, G_MIXED);
+    for (unsigned k = small ? 4 : 20; k-- > 0;) add(60 + static_cast<uint32_t>(r.below(small ? 400 : 2000)), 1, G_MIXED);
+    for (size_t k = gaps.size(); k > 1; --k) std::swap(gaps[k - 1], gaps[r.below(k)]);
+    // the first conversion of a stream that has never been converted comes after exactly 65536 / 256 calls in half of the cases
+    if (idx % 4 < 2) for (size_t k = 0; k < gaps.size(); ++k) if (gaps[k].mode == G_EXACT && gaps[k].n == (idx % 4 == 0 ? 65536u : 256u)) { std::swap(gaps[0], gaps[k]); break; }
+
+    p.log(sfmt("soak: one stream, %zu check points, %s, emptied above %zu bytes", gaps.size(), soup ? "arbitrary bytes" : "text", LIMIT));
+    unsigned last_kind = static_cast<unsigned>(r.below(N_KINDS));
+    bool converted_before = false;
+    S prev_content;
+    for (size_t gi = 0; gi < gaps.size(); ++gi) {
+        const uint32_t gap = gaps[gi].n;
+        const unsigned mode = gaps[gi].mode;
+        const bool exact = mode != G_MIXED;
+        const uint64_t m0 = mutations;
+        const size_t s0 = m.size();
+        // landing: the content at the next check point has the size, the first 16 and the last 16 bytes of the one at the previous check point
+        const bool landing = mode == G_EXACT && gap >= 8 && s0 >= 64 && s0 < 100000 && r.chance(2, 3);
+        uint32_t done = 0;
+        if (landing) { do_trunc(boundary(16 + r.below(s0 - 40))); ++done; }
+        const uint32_t closing = landing ? 3 : gap >= 3 ? 1 : 0;
+        while (done + closing < gap) done += mutate(mode, gap - closing - done);
+        if (landing) {
+            const size_t T = s0 - 16, c = m.size();
+            if (c >= T) { do_char(); do_trunc(T); }
+            else if (T - c == 1) { do_append(src.data() + r.below(1000), 2, 0); do_trunc(T); }
+            else { do_append(src.data() + r.below(src.size() - (T - c)), T - c - 1, static_cast<unsigned>(r.below(3))); do_char(); }
+            do_append(TR.data(), 16, 0);
+            vrt::count("soak.check_points_with_the_size_head_and_tail_of_the_previous_one");
+            if (m.size() != s0) p.fail("harness-self-check", "landing missed its size");
+        } else if (closing) do_append(TR.data(), 16, 0);
+        const uint64_t d = mutations - m0;
+        if (exact && d != gap) p.fail("harness-self-check", sfmt("a distance of %u calls came out as %llu", gap, static_cast<unsigned long long>(d)));
+        // the check point
+        const std::string when = sfmt("at check point %zu, %llu content-changing calls after %s (%llu in all), %zu bytes", gi, static_cast<unsigned long long>(d),
+                                      converted_before ? "the previous to_string()" : "the construction of the stream", static_cast<unsigned long long>(mutations), m.size());
+        p.log(when);
+        p.check_all(when);
+        Expect e(m);
+        unsigned kind = (exact || r.chance(2, 3)) ? last_kind : static_cast<unsigned>(r.below(N_KINDS));
+        for (unsigned k = 1 + static_cast<unsigned>(r.below(3)); k-- > 0;) {
+            if (kind == last_kind && converted_before) vrt::count("soak.same_kind_of_to_string_as_the_call_before");
+            one_to_string(p, kind, e, when);
+            last_kind = kind;
+            converted_before = true;
+            if (!r.chance(1, 2)) kind = static_cast<unsigned>(r.below(N_KINDS));
+        }
+        p.check_all("to_string");
+        vrt::count("soak.check_points");
+        if (mode == G_APPENDS) vrt::count("soak.check_points_after_content_growing_calls_only");
+        if (exact && d % 65536 == 0) vrt::count("soak.check_points_a_multiple_of_65536_calls_after_the_previous_one");
+        else if (exact && d % 256 == 0) vrt::count("soak.check_points_a_multiple_of_256_calls_after_the_previous_one");
+        if (landing && m == prev_content) vrt::count("soak.landed_on_identical_content");
+        if (m.size() > 65536) vrt::count("soak.check_points_with_more_than_65536_bytes");
+        prev_content = m;
+        vrt::count("steps");
+    }
+    vrt::count("soak.content_changing_calls", mutations);
+    vrt::count("soak.buffer_moves", moved);
+    vrt::count("steps", calls);
+    if (mutations >= 140000) vrt::count("soak.cases_with_140000_or_more_consecutive_content_changing_calls");
+    if (mutations >= 65536) vrt::count("soak.cases_with_65536_or_more_consecutive_content_changing_calls");
+    vrt::distinct(vrt::fnv1a(m.data(), m.size(), vrt::fnv_u64(mutations, 1009)));
+    if (vrt::want_sample("soak"))
+        vrt::sample("soak", sfmt("one stream, %llu content-changing calls (%llu calls) checked one by one, %zu check points (raw_buffer(), size(), to_string()) at distances of 65536, 65535, 65537, 256, 512 ... and random numbers of calls | %s",
+                                 static_cast<unsigned long long>(mutations), static_cast<unsigned long long>(calls), gaps.size(), p.history.substr(0, 300).c_str()));
+}
+
+// ---- source placement
+struct Pair {
+    SS out;
+    char inbuf[1024];
+};
+static_assert(sizeof(Pair) == sizeof(SS) + 1024, "no padding between the stream and the array behind it");
+static_assert(alignof(Pair) == alignof(SS), "the pair is placed like a stream");
+
+// a Pair in a malloc block of exactly its size, or in an array on the stack; Pool slot 0 watches its stream
+struct PairAt {
+    Pool &p;
+    Pair *pp;
+    void *mem;
+    PairAt(Pool &pool, void *where) : p(pool), mem(nullptr)
+    {
+        if (!where) { mem = malloc(sizeof(Pair)); where = mem; }
+        if (!where) { fprintf(stderr, "vrt: out of memory\n"); _exit(98); }
+        { va::LibScope ls; pp = new (where) Pair; }
+        p.s[0].p = &pp->out;
+        p.s[0].model.clear();
+    }
+    ~PairAt()
+    {
+        p.s[0].p = nullptr;
+        p.s[0].model.clear();
+        { va::LibScope ls; pp->~Pair(); }
+        free(mem);
+    }
+};
+
+static const char *const SRC_FORM[] = {"append(ptr,n)", "<<string_view", "append(const char*)", "<<const char*", "<<u8string_view"};
+// one append whose source is [src, src+n) somewhere in writable memory the harness owns (C-string forms put a NUL behind it for the call)
+static void append_from(Pool &p, char *src, size_t n, unsigned form, bool nul_ok, const std::string &what)
+{
+    Slot &x = p.s[0];
+    SS &ss = *x.p;
+    const S data(src, n);
+    if ((form == 2 || form == 3) && (!nul_ok || memchr(src, 0, n))) form = 0;
+    const size_t before = ss.size();
+    const char *buf_before = ss.raw_buffer();
+    const bool was_inside = x.inside(buf_before);
+    char saved = 0;
+    if (form == 2 || form == 3) { saved = src[n]; src[n] = 0; }
+    {
+        va::LibScope ls;
+        switch (form) {
+        case 1: ss << std::string_view(src, n); break;
+        case 2: ss.append(src); break;
+        case 3: ss << static_cast<const char *>(src); break;
+        case 4: ss << std::u8string_view(reinterpret_cast<const char8_t *>(src), n); break;
+        default: ss.append(src, n); break;
+        }
+    }
+    if (form == 2 || form == 3) src[n] = saved;
+    x.model += data;
+    const std::string d = sfmt("%s: %s of %zu bytes to a stream of %zu", what.c_str(), SRC_FORM[form], n, before);
+    p.log(d);
+    p.check_all(d);
+    vrt::count("steps");
+    if (ss.raw_buffer() != buf_before) vrt::count(was_inside ? "placement.appends_that_grow_the_stream_out_of_its_object" : "placement.appends_that_grow_the_heap_buffer");
+}
+static void append_outside(Pool &p, Rng &r, size_t n)
+{
+    if (!n) return;
+    Slot &x = p.s[0];
+    const S data = sc::rand_bytes(r, n, true);
+    vrt::Exact<char> e(data.data(), n);
+    { va::LibScope ls; x.p->append(e.data(), n); }
+    x.model += data;
+}
+
+// prefix of P bytes (in-object), then the append that grows the stream out of its object with its source at `origin` + k inside
+// the array behind the stream, then appends from there that cross 512, 1024 and 2048
+static void behind_object_run(Rng &r, bool heap, size_t P, size_t k, size_t L1, unsigned form)
+{
+    Pool p;
+    alignas(Pair) char raw[sizeof(Pair)];
+    PairAt at(p, heap ? nullptr : raw);
+    Pair &pr = *at.pp;
+    Slot &x = p.s[0];
+    if (pr.inbuf != reinterpret_cast<char *>(&pr.out) + sizeof(SS)) { vrt::count("placement.unexpected_layout"); return; }
+    { const S fill = sc::rand_bytes(r, sizeof(pr.inbuf), true); memcpy(pr.inbuf, fill.data(), sizeof(pr.inbuf)); }
+    char *const end = pr.inbuf + sizeof(pr.inbuf);
+    p.log(sfmt("source placement: stream %s, %zu bytes in the in-object buffer, source %zu bytes behind the end of the object", heap ? "in a heap block" : "on the stack", P, k));
+    append_outside(p, r, P);
+    p.check_all("prefix");
+    char *src = pr.inbuf + k;
+    if (src + L1 > end) L1 = static_cast<size_t>(end - src);
+    const bool grows = P + L1 > ST_STACK_STRING_SIZE;
+    append_from(p, src, L1, form, src + L1 < end, "source right behind the stream");
+    if (grows) {
+        vrt::count("placement.first_append_from_behind_the_stream_crosses_256");
+        if (k == 0) vrt::count("placement.source_starts_exactly_at_the_end_of_the_stream");
+    }
+    static const size_t marks[] = {512, 1024, 2048};
+    static const size_t offs[] = {0, 1, 2, 3, 7, 8, 9, 15, 16, 17, 33, 64};
+    for (size_t M : marks) {
+        const size_t cur = x.model.size();
+        if (cur >= M) continue;
+        const size_t k2 = r.chance(1, 2) ? k : r.pick(offs);
+        char *s2 = pr.inbuf + k2;
+        const size_t room = static_cast<size_t>(end - s2);
+        const size_t over = 1 + r.below(3);                                       // how far beyond the mark the append goes
+        const size_t a = r.below(std::min(room - over, M - cur) + 1);            // how much of it lies below the mark
+        append_outside(p, r, M - cur - a);                                        // (the rest comes from elsewhere)
+        append_from(p, s2, a + over, static_cast<unsigned>(r.below(5)), s2 + a + over < end, sfmt("source behind the stream, crossing %zu", M));
+        vrt::count(sfmt("placement.append_from_behind_the_stream_crosses_%zu", M));
+    }
+    vrt::count("placement.runs_behind_the_object");
+    vrt::count(heap ? "placement.pairs_in_a_heap_block" : "placement.pairs_on_the_stack");
+    if (vrt::want_sample("source_placement")) vrt::sample("source_placement", p.history.substr(0, 500));
+}
+
+// The stream's heap buffer with the source directly behind it: a block of cap + 1024 bytes is handed to the replaced operator new
+// as a parked block of cap bytes, so that the stream's next buffer of that size is its first part; the append from behind it that
+// makes the stream grow again releases the buffer while the source is still needed - the release is parked, not freed.
+static void behind_heap_buffer_run(Rng &r, size_t cap, size_t k, unsigned form)
+{
+    Pool p;
+    Slot &x = p.s[0];
+    p.make(x);
+    SS &ss = *x.p;
+    const size_t TAIL = 1024;
+    char *mem = static_cast<char *>(malloc(cap + TAIL));
+    if (!mem) return;
+    { const S fill = sc::rand_bytes(r, TAIL, true); memcpy(mem + cap, fill.data(), TAIL); }
+    // in-object content, then one append that asks for a buffer of exactly cap bytes: the block is handed over right before it
+    const size_t P0 = r.below(ST_STACK_STRING_SIZE + 1);
+    append_outside(p, r, P0);
+    const size_t lo = std::max<size_t>(cap / 2 + 1, ST_STACK_STRING_SIZE + 1);
+    const size_t target = lo + r.below(cap - lo + 1);
+    va::NewPool &np = va::new_pool();
+    const bool big = cap > va::NewPool::SMALL_MAX;
+    const size_t slot = big ? 0 : cap % va::NewPool::SLOTS;
+    void *&sp = big ? np.bptr[slot] : np.ptr[slot];
+    size_t &ssz = big ? np.bsize[slot] : np.size[slot];
+    {
+        const S data = sc::rand_bytes(r, target - P0, true);
+        vrt::Exact<char> e(data.data(), data.size());
+        if (sp) { va::pool_unpoison(sp, ssz); free(sp); }
+        sp = mem;
+        ssz = cap;
+        va::pool_poison(mem, cap);
+        { va::LibScope ls; ss.append(e.data(), data.size()); }
+        x.model += data;
+    }
+    p.check_all("growth into the prepared block");
+    if (ss.raw_buffer() != mem) {
+        vrt::count("placement.prepared_block_not_taken");
+        if (sp == mem) { va::pool_unpoison(mem, cap); sp = nullptr; ssz = 0; free(mem); }
+        return;
+    }
+    // fill up to a few bytes below the capacity, then the append from right behind the buffer that makes it grow
+    const size_t room_left = r.below(40);
+    if (cap - room_left > x.model.size()) append_outside(p, r, cap - room_left - x.model.size());
+    char *src = mem + cap + k;
+    const size_t L = cap - x.model.size() + 1 + r.below(std::min<size_t>(TAIL - k - (cap - x.model.size()) - 1, 300));
+    p.log(sfmt("source placement: heap buffer of %zu bytes holding %zu, source %zu bytes behind its end", cap, x.model.size(), k));
+    vrt::placement_force_parks() = 1;
+    append_from(p, src, L, form, src + L < mem + cap + TAIL, "source right behind the heap buffer");
+    vrt::placement_force_parks() = 0;
+    vrt::count("placement.appends_from_right_behind_the_heap_buffer_that_grow_it");
+    if (k == 0) vrt::count("placement.source_starts_exactly_at_the_end_of_the_heap_buffer");
+    // (the block now belongs to the allocation pool; the bytes behind its first part stay readable until it is evicted)
+    if (vrt::want_sample("source_placement_heap")) vrt::sample("source_placement_heap", p.history.substr(0, 500));
+}
+
+// source in a block that sits at the address of the buffer the stream has just given up
+static void former_buffer_run(Rng &r, size_t cap)
+{
+    Pool p;
+    Slot &x = p.s[0];
+    p.make(x);
+    SS &ss = *x.p;
+    const size_t lo = std::max<size_t>(cap / 2 + 1, ST_STACK_STRING_SIZE + 1);
+    append_outside(p, r, lo + r.below(cap - lo + 1));
+    const char *old = ss.raw_buffer();
+    if (x.inside(old) || sc::capacity_of(x) != cap) return;
+    // grow once more: the old buffer is released (parked), the harness's source block of the same size takes its address
+    vrt::placement_force_parks() = 1;
+    append_outside(p, r, cap - x.model.size() + 1 + r.below(20));
+    vrt::placement_force_parks() = 0;
+    p.check_all("growth");
+    char *src = new char[cap];
+    { const S fill = sc::rand_bytes(r, cap, true); memcpy(src, fill.data(), cap); }
+    if (src == old) vrt::count("placement.source_at_the_address_of_the_buffer_the_stream_gave_up");
+    p.log(sfmt("source placement: source in a block of %zu bytes %s the stream's previous buffer", cap, src == old ? "at the address of" : "(not at the address of)"));
+    size_t pos = 0;
+    for (int round = 0; round < 3 && pos < cap; ++round) {
+        const size_t n = round == 2 ? cap - pos : 1 + r.below(cap - pos);
+        append_from(p, src + pos, n, static_cast<unsigned>(r.below(5)), pos + n < cap, "source where the stream's buffer used to be");
+        pos += n;
+    }
+    delete[] src;
+    vrt::count("placement.runs_with_the_source_in_a_recycled_block");
+}
+
+static void placement_case(uint64_t i, Rng &r)
+{
+    const size_t P = static_cast<size_t>(i % (ST_STACK_STRING_SIZE + 1));
+    const bool heap = (i / (ST_STACK_STRING_SIZE + 1)) % 2 == 0;
+    static const size_t offs[] = {0, 1, 2, 3, 4, 7, 8, 9, 15, 16, 17, 31, 32, 64, 255, 256};
+    const size_t cross = ST_STACK_STRING_SIZE + 1 - P;            // the shortest append that leaves the in-object buffer
+    unsigned form = static_cast<unsigned>(i % 5);
+    for (size_t k : offs) {
+        const size_t lens[] = {cross, cross + 1, cross + 7, 256, 2 * ST_STACK_STRING_SIZE + 1 - P, 4 * ST_STACK_STRING_SIZE + 1 - P, 1024 - k};
+        size_t last = 0;
+        for (size_t L : lens) {
+            if (L < cross || L > 1024 - k || L == last) continue;
+            last = L;
+            behind_object_run(r, heap, P, k, L, form++ % 5);
+        }
+    }
+    // an append that stays inside the object (nothing may happen to it either)
+    if (P < ST_STACK_STRING_SIZE) behind_object_run(r, heap, P, r.pick(offs), 1 + r.below(ST_STACK_STRING_SIZE - P), form % 5);
+    // the same relation on the heap, and a source at a recycled address
+    static const size_t caps[] = {512, 1024, 2048, 4096, 8192, 16384};
+    static const size_t hoffs[] = {0, 0, 1, 8, 16, 64};
+    behind_heap_buffer_run(r, caps[i % 6], hoffs[(i / 6) % 6], static_cast<unsigned>(r.below(5)));
+    former_buffer_run(r, caps[(i / 3) % 5]);
+    vrt::count("placement.cases");
+    vrt::distinct(vrt::fnv_u64(i, 1013));
+}
+
+} // namespace hist
+
 static void body()
 {
+    ambient::enable(3);
     vrt::require("steps", 100000);
     vrt::require("op.append", 10000);
     vrt::require("op.insert_view", 2000);
@@ -1075,6 +1586,40 @@ static void body()
     vrt::phase("scale", vrt::tier_count(2016, 40000), quiescent(sc::text_case));
     vrt::phase("scale_growth", vrt::tier_count(336, 6720), quiescent(sc::growth_case));
     vrt::phase("scale_to_string", vrt::tier_count(672, 13440), quiescent(sc::to_string_case));
+
+    // call history inside one process, and where the source of an append lives
+    vrt::note("soak phase: one stream per case used as a builder (truncate() and tens of thousands of single-character appends, small pieces, wide text, truncate(n) / erase(k)) for more than 140000 consecutive "
+              "content-changing calls (runs of 64..300 equal calls followed directly by a different one; wide text rewritten in place at one address), each checked against the shadow model; raw_buffer(), size() and to_string() (all kinds, often the same kind as the call before) at check points that are exactly 65536, "
+              "65535, 65537, 131072, 256, 512 ... and random numbers of content-changing calls apart, two thirds of them with the size, the first 16 and the last 16 bytes of the content at the check point before");
+    vrt::require("soak.cases_with_140000_or_more_consecutive_content_changing_calls", 16);
+    vrt::require("soak.content_changing_calls", 5000000);
+    vrt::require("soak.check_points", 800);
+    vrt::require("soak.check_points_a_multiple_of_65536_calls_after_the_previous_one", 64);
+    vrt::require("soak.check_points_a_multiple_of_256_calls_after_the_previous_one", 150);
+    vrt::require("soak.check_points_after_content_growing_calls_only", 48);
+    vrt::require("soak.check_points_with_the_size_head_and_tail_of_the_previous_one", 100);
+    vrt::require("soak.same_kind_of_to_string_as_the_call_before", 800);
+    vrt::require("soak.to_string_calls", 1500);
+    vrt::require("soak.emptied", 100);
+    vrt::require("soak.runs_of_64_or_more_equal_calls_then_a_different_one", 5000);
+    vrt::require("soak.wide_text_rewritten_in_place_at_one_address", 10000);
+    vrt::phase("soak", vrt::thorough() ? 64 : 16, quiescent(hist::soak_case));
+    vrt::note("source placement phase: struct { string_stream out; char inbuf[1024]; } in a malloc block of exactly its size and on the stack; for every prefix length 0..256 the append that grows the stream out of "
+              "its in-object buffer takes its source from inbuf + {0, 1, 2, 3, 4, 7, 8, 9, 15, 16, 17, 31, 32, 64, 255, 256}, later ones from there cross 512, 1024 and 2048; the same with the source directly behind "
+              "the stream's heap buffer (a block of cap + 1024 bytes handed to the replaced operator new as a parked block of cap bytes) and with the source in a block at the address of the buffer the stream has just released");
+    vrt::require("placement.cases", 500);
+    vrt::require("placement.pairs_in_a_heap_block", 5000);
+    vrt::require("placement.pairs_on_the_stack", 5000);
+    vrt::require("placement.first_append_from_behind_the_stream_crosses_256", 10000);
+    vrt::require("placement.source_starts_exactly_at_the_end_of_the_stream", 1000);
+    vrt::require("placement.append_from_behind_the_stream_crosses_512", 3000);
+    vrt::require("placement.append_from_behind_the_stream_crosses_1024", 3000);
+    vrt::require("placement.append_from_behind_the_stream_crosses_2048", 3000);
+    vrt::require("placement.appends_that_grow_the_stream_out_of_its_object", 10000);
+    vrt::require("placement.appends_from_right_behind_the_heap_buffer_that_grow_it", 300);
+    vrt::require("placement.source_starts_exactly_at_the_end_of_the_heap_buffer", 100);
+    vrt::require("placement.source_at_the_address_of_the_buffer_the_stream_gave_up", 100);
+    vrt::phase("source_placement", vrt::tier_count(514, 514 * 8), quiescent(hist::placement_case));
 }
 
 VRT_MAIN(body)
